@@ -642,6 +642,60 @@ def invalid_probability_check(ctx, hist):
             ctx.coverage["discharged"] += 1
 
 
+# ---- goals (inputparser/goal_parser.py) -----------------------------------------------------------------------
+def goal_check(ctx, hist):
+    rng = ctx.rng
+    n = ctx.pick(60, 400)
+    goals, meta = [], []
+    for _ in range(n):
+        e = T.gen_sx(rng, rng.randint(1, 3), polar=True)
+        try:
+            want = T.poly_dump(T.to_poly(e))
+        except T.NotPoly:
+            continue
+        if T.has_decimal(e):
+            continue
+        group = []
+        for ex, ws in ((None, "normal"), (lambda: 1, "tight"), (lambda: rng.choice([0, 1]), "wide")):
+            ts = T.print_spelling(e, ex)
+            if not T.polar_ok(ts):
+                continue
+            txt = T.render(ts, T.Spelling(rng, ws=ws)).strip()
+            form = rng.choice(["E({})", "E( {} )", "E({})"])
+            group.append(form.format(txt))
+        k = rng.randint(2, 4)
+        group.append(f"c{k}({T.render(T.print_min(e), T.Spelling(rng)).strip()})")
+        group.append(f"k{k}( {T.render(T.print_full(e), T.Spelling(rng, ws='tight')).strip()} )")
+        for gtxt in group:
+            goals.append(gtxt)
+            meta.append((e, want, gtxt))
+    bad = ["E(x", "Ex)", "E()", "Q(x)", "E(x+)", "c(x)", "kx(x)", "E(x*)", "P(x > 1)", "E(x))"]
+    res = lib.run_tasks([{"kind": "c19_goals", "goals": goals + bad, "timeout": 120}], timeout=120)[0]
+    if "results" not in res:
+        ctx.violation("worker:" + res.get("error", "?"), {"result": res}, "Polar worker failed on the goal stream", no_input=True)
+        return
+    stat = {"spellings": 0, "malformed": 0, "malformed_rejected": 0}
+    for (e, want, gtxt), x in zip(meta, res["results"]):
+        ctx.coverage["obligations"] += 1
+        ctx.count({"g": gtxt}, nontrivial=len(gtxt) > 6)
+        stat["spellings"] += 1
+        if "ok" in x and x["ok"][1][-1] == want:
+            ctx.coverage["discharged"] += 1
+            continue
+        ctx.violation(f"goal:{gtxt}", {"goal": gtxt, "ast": e, "want": want, "polar": x},
+                      f"goal text {gtxt!r} is read as {x}, its AST expands to {want}")
+    for gtxt, x in zip(bad, res["results"][len(meta):]):
+        stat["malformed"] += 1
+        ctx.coverage["obligations"] += 1
+        if "err" in x:
+            stat["malformed_rejected"] += 1
+            ctx.coverage["discharged"] += 1
+            hist["error"]["goal:" + x["err"]["etype"]] = hist["error"].get("goal:" + x["err"]["etype"], 0) + 1
+        else:
+            ctx.violation(f"goal-malformed-accepted:{gtxt}", {"goal": gtxt, "polar": x}, f"malformed goal {gtxt!r} is accepted as {x}")
+    hist["goals"] = stat
+
+
 # ---- informational: quirks inside Polar's own grammar ---------------------------------------------------
 QUIRKS = [
     ("x = 2x", "implicit multiplication: one ARITHM_ATOM token '2x' handed to the CAS"),
@@ -738,6 +792,7 @@ def run(ctx):
     for name, fn in (("mirror", lambda: mirror_crosscheck(ctx)), ("parse", lambda: parse_correspondence(ctx, hist)),
                      ("precedence", lambda: precedence_check(ctx, hist)), ("malformed", lambda: malformed_check(ctx, hist)),
                      ("probabilities", lambda: invalid_probability_check(ctx, hist)),
+                     ("goals", lambda: goal_check(ctx, hist)),
                      ("analysis", lambda: analysis_check(ctx, hist)), ("quirks", lambda: quirk_stream(ctx))):
         t0 = time.time()
         fn()
